@@ -385,15 +385,17 @@ def isBin (c : Char) : Bool := c = '0' || c = '1'
 /-- RE2 `\s` -/
 def isSpace (c : Char) : Bool := c = ' ' || c = '\t' || c = '\n' || c = '\x0c' || c = '\r'
 
-/-- the alternatives after the sign prefix: `0 | [1-9]\d* | 0[xX]hex+ | 0[0-7]+ | 0[bB][01]+` -/
+/-- the alternatives after the sign prefix: `\d+ | 0[xX]hex+ | 0[bB][01]+` (leading zeroes are accepted; the digits are
+    read in the radix given to the constructor) -/
 def intBody : List Char → Bool
-  | ['0'] => true
-  | '0' :: x :: rest =>
-    if x = 'x' || x = 'X' then !rest.isEmpty && rest.all isHex
-    else if x = 'b' || x = 'B' then !rest.isEmpty && rest.all isBin
-    else (x :: rest).all isOct
-  | c :: rest => '1' ≤ c && c ≤ '9' && rest.all isDigit
   | [] => false
+  | cs =>
+    cs.all isDigit ||
+    (match cs with
+     | '0' :: x :: rest =>
+       ((x = 'x' || x = 'X') && !rest.isEmpty && rest.all isHex) ||
+       ((x = 'b' || x = 'B') && !rest.isEmpty && rest.all isBin)
+     | _ => false)
 
 /-- `types.IntegerPattern` = `\A[+-]?\s*(?:…)\z` -/
 def intPattern (cs : List Char) : Bool :=
